@@ -28,6 +28,7 @@ type vpC11Item struct {
 	Method  string
 	ID      int
 	HasBody bool
+	Chunked bool // body sent with chunked transfer coding (two chunks)
 }
 
 type vpC11Snap struct {
@@ -92,9 +93,22 @@ func vpC11Request(it vpC11Item) (raw string, exp vpC11Snap) {
 	if it.Kind == "close" {
 		b.WriteString("Connection: close\r\n")
 	}
+	if it.Kind == "trunc" {
+		// chunked body cut off inside its first chunk (the client disappears): leaves a body stream mid-chunk
+		b.WriteString("Content-Type: text/plain\r\nTransfer-Encoding: chunked\r\n\r\n1c\r\npartial-" + id)
+		return b.String(), exp
+	}
 	if body != "" {
 		if exp.CType != "" {
 			fmt.Fprintf(&b, "Content-Type: %s\r\n", exp.CType)
+		}
+		if it.Chunked {
+			b.WriteString("Transfer-Encoding: chunked\r\n\r\n")
+			h := len(body) / 2
+			fmt.Fprintf(&b, "%x\r\n%s\r\n%x\r\n%s\r\n0\r\n\r\n", h, body[:h], len(body)-h, body[h:])
+			exp.Body = body
+			exp.CL = -1
+			return b.String(), exp
 		}
 		fmt.Fprintf(&b, "Content-Length: %d\r\n", len(body))
 		exp.CL = len(body)
@@ -154,7 +168,7 @@ func (r *vpC11Run) handler(kindOf func(id string) string, stream bool) RequestHa
 		}
 		for k, v := range ctx.Request.Header.All() {
 			switch strings.ToLower(string(k)) {
-			case "host", "user-agent", "content-type", "content-length", "cookie", "connection":
+			case "host", "user-agent", "content-type", "content-length", "cookie", "connection", "transfer-encoding":
 				continue
 			}
 			s.Hdrs = append(s.Hdrs, string(k)+"="+string(v))
@@ -245,7 +259,7 @@ func vpC11Check(got vpC11Snap, exp vpC11Snap, first *vpC11Snap, connReq uint64) 
 	case got.ConnReqNum != connReq:
 		return fmt.Sprintf("ConnRequestNum %d want %d", got.ConnReqNum, connReq)
 	}
-	if exp.Body != "" && got.CL != exp.CL {
+	if exp.Body != "" && exp.CL >= 0 && got.CL != exp.CL {
 		return fmt.Sprintf("content length %d want %d", got.CL, exp.CL)
 	}
 	for _, m := range []string{eq("query args", got.Query, exp.Query), eq("post args", got.Post, exp.Post), eq("headers", got.Hdrs, exp.Hdrs),
@@ -289,6 +303,12 @@ func TestVP_C11_Histories(t *testing.T) {
 			}
 			if stream && it.Kind == "form" {
 				it.Kind = "plain" // post args are not parsed from a streamed body
+			}
+			if stream && rapid.IntRange(0, 5).Draw(t, "trunc") == 0 {
+				it.Kind, it.Method = "trunc", "POST"
+			}
+			if it.Kind == "plain" && it.HasBody {
+				it.Chunked = rapid.Bool().Draw(t, "chunked")
 			}
 			items = append(items, it)
 			kindByID[fmt.Sprint(it.ID)] = it.Kind
@@ -340,6 +360,15 @@ func TestVP_C11_Histories(t *testing.T) {
 				nontrivial = true
 			}
 			w.Feed([]byte(raw))
+			if it.Kind == "trunc" {
+				// the client goes away mid-chunk; whatever the server does with this request, it ends the connection
+				special = true
+				closeConn()
+				run.mu.Lock()
+				seen = len(run.snaps)
+				run.mu.Unlock()
+				continue
+			}
 			// wait for one complete final response or a close
 			var status int
 			var respHdr http.Header
